@@ -357,6 +357,84 @@ func (e2eFamily) Gen(n int, seed int64, mode, tier string) []interface{} {
 			}
 			s.checks()
 			out = append(out, s.in)
+		case "bytes":
+			// C18: structure-aware mutations of valid packets, before and after CONNECT, with a
+			// witness pair that must keep working
+			s := newScript(rng, 1)
+			s.connect(0, "wsub", "c-wsub", "", 60, nil)
+			s.sub("wsub", []string{"w/#"}, []int{0})
+			s.connect(0, "wpub", "c-wpub", "", 60, nil)
+			victims := 0
+			newVictim := func() string {
+				victims++
+				c := fmt.Sprintf("v%d", victims)
+				s.connect(0, c, "c-"+c, "", 60, &jPub{T: "w/will", P: "dead-" + c, Q: 0})
+				s.sub(c, []string{"w/#", "v/+"}, []int{1, 0})
+				return c
+			}
+			v := newVictim()
+			for k := 0; k < 4+rng.Intn(8); k++ {
+				valid := [][]byte{
+					encPublish("v/a", "hello", 0, false, false, 0),
+					encPublish("v/a", "hello", 1, false, false, 10+k),
+					encPublish("v/a", "hello", 2, false, false, 30+k),
+					encPublish("w/r", "kept", 0, true, false, 0),
+					encSubscribe(50+k, []string{"x/y", "z"}, []int{0, 1}),
+					encUnsubscribe(70+k, []string{"x/y"}),
+					encAck(4, 1), encAck(5, 1), encAck(6, 30+k), encAck(7, 1),
+					{0xc0, 0}, {0xe0, 0},
+					encConnect("again", "", "", 60, nil, true),
+					encConnect("willful", "u", "p", 30, &jPub{T: "w/t", P: "x", Q: 1, R: true}, true),
+					{0x20, 2, 0, 0}, {0x90, 3, 0, 1, 0}, {0xd0, 0},
+				}
+				b := append([]byte{}, valid[rng.Intn(len(valid))]...)
+				switch m := rng.Intn(10); {
+				case m < 3 && len(b) > 2: // truncation at an offset
+					b = b[:1+rng.Intn(len(b)-1)]
+				case m < 4: // type nibble
+					b[0] = byte(rng.Intn(16))<<4 | b[0]&0x0f
+				case m < 5: // flag nibble (QoS 3, dup, retain)
+					b[0] = b[0]&0xf0 | byte(rng.Intn(16))
+				case m < 6 && len(b) > 1: // remaining length: smaller, larger (bounded), multi-byte, five bytes
+					switch rng.Intn(4) {
+					case 0:
+						b[1] = byte(rng.Intn(int(b[1]) + 1))
+					case 1:
+						b[1] = byte(int(b[1]) + 1 + rng.Intn(20))
+					case 2:
+						b = append([]byte{b[0], 0x80 | b[1], 0x00}, b[2:]...)
+					default:
+						b = append([]byte{b[0], 0x80, 0x80, 0x80, 0x80, 0x01}, b[2:]...)
+					}
+				case m < 7 && len(b) > 4: // a length prefix inside the body
+					i := 2 + rng.Intn(len(b)-3)
+					b[i] = byte(rng.Intn(4))
+					b[i+1] = byte(rng.Intn(256))
+				case m < 8 && len(b) > 3: // identifier 0 / empty topic list
+					if b[0]>>4 == 8 || b[0]>>4 == 10 {
+						b = append([]byte{b[0], 2}, b[2:4]...)
+					} else {
+						b[len(b)-2], b[len(b)-1] = 0, 0
+					}
+				}
+				if n := completePacketLen(b); n > 0 && n < len(b) {
+					b = b[:n]
+				}
+				hexs := fmt.Sprintf("%x", b)
+				if rng.Intn(4) == 0 {
+					s.add(e2eOp{Op: "rawconnect", N: 0, C: fmt.Sprintf("h%d", k), Hex: hexs})
+				} else {
+					s.add(e2eOp{Op: "raw", C: v, Hex: hexs})
+				}
+				// the witness pair keeps working
+				s.pub("wpub", "w/x", fmt.Sprintf("alive%d", k), rng.Intn(2), false)
+				if rng.Intn(4) == 0 {
+					s.add(e2eOp{Op: "eof", C: v})
+					v = newVictim()
+				}
+			}
+			s.checks()
+			out = append(out, s.in)
 		case "peerfail":
 			// C11: the node hosting several sessions and subscriptions fails; one survivor is told
 			// by the membership layer, the other only by the survivor's broadcasts
